@@ -483,21 +483,16 @@ def create_learners_from_sweep(
 
 
 def _identify_cross_product_axes(pipeline: Pipeline) -> tuple[str, ...]:
-    reduced = _reduced_axes(pipeline)
-    impossible_axes: set[str] = set()  # Constructing this as a safety measure (for assert below)
-    for func in pipeline.leaf_nodes:
-        for output_name in pipeline.func_dependencies(func):
-            for name in at_least_tuple(output_name):
-                if name in reduced:
-                    impossible_axes.update(reduced[name])
+    # An axis that is reduced anywhere (also in a root array, or on the way to another leaf)
+    # cannot be fixed, see `_validate_fixed_indices`.
+    impossible_axes = {axis for axes in _reduced_axes(pipeline).values() for axis in axes}
 
     possible_axes: set[str] = set()
     for func in pipeline.leaf_nodes:
         axes = pipeline.independent_axes_in_mapspecs(func.output_name)
         possible_axes.update(axes)
 
-    assert not (possible_axes & impossible_axes)
-    return tuple(sorted(possible_axes))
+    return tuple(sorted(possible_axes - impossible_axes))
 
 
 def _iterate_axes(
